@@ -573,7 +573,16 @@ class Intervals:
             out[k] = h
         return out
 
+    def _in_cycle(self, b):
+        """widening is only needed where a value can grow round a loop; a plain join of many branches is exact"""
+        c = self._cyc.get(b)
+        if c is None:
+            c = any(b in self.fn.reachable_from(x) for x in self.fn.succs(b))
+            self._cyc[b] = c
+        return c
+
     def _run(self):
+        self._cyc = {}
         self.state_in = {0: {}}
         work = [0]
         n = 0
@@ -592,7 +601,7 @@ class Intervals:
                     work.append(tgt)
                 else:
                     self.visits[tgt] += 1
-                    j = self._join(self.state_in[tgt], s2, self.visits[tgt] > WIDEN)
+                    j = self._join(self.state_in[tgt], s2, self.visits[tgt] > WIDEN and self._in_cycle(tgt))
                     if j != self.state_in[tgt]:
                         self.state_in[tgt] = j
                         if tgt not in work:
